@@ -10,10 +10,11 @@ d=$(mktemp -d ${TMPDIR:-/tmp}/robust-XXXX)
 trap 'rm -rf "$d"' EXIT
 rsync -a --exclude .git /repo/ "$d/"
 bin/mcpcheck -refactor "$kind" -repo "$d" || exit 2
-(cd "$d" && GOFLAGS= GOTOOLCHAIN=local go build ./... ) || { echo "transformed tree does not build"; exit 2; }
+# (no `go build` of the scratch copy: every distinct copy would add its objects to the go build cache; the checker
+#  type-checks the transformed tree from source and reports a load failure if it is not valid Go)
 rc=0
 for p in $props; do
-  out=$(bin/mcpcheck -property $p -repo "$d" -no-evidence 2>&1)
+  out=$(bin/mcpcheck -property $p -repo "$d" -no-evidence -whole 2>&1)
   n=$(echo "$out" | grep -c "^MUTANT-REPORT")
   if echo "$out" | grep -q "^panic:\|^goroutine \|load failure"; then echo "$p: CHECKER CRASHED"; echo "$out" | head -5; rc=1; continue; fi
   echo "$p: $n reports"
